@@ -13,6 +13,8 @@ CLAIMED["C01"] = ("DESIGN.md#c01", "Lean theorems for every well-formed zone tab
          "Lean 4 proof over zone-table model + differential correspondence run")
 CLAIMED["C09"] = ("DESIGN.md#c09", "Lean theorems over the exact-microsecond model of Duration.__new__/components/in_*()/AbsoluteDuration (all integer argument tuples, unbounded); correspondence model<->code: exact model on the float-exact range, float-faithful model beyond it; oracle = native timedelta + integer split",
          "Lean 4 proof of the integer model + hand model tied by differential run (float bridge stated as assumption)")
+CLAIMED["C13"] = ("DESIGN.md#c13", "Lean theorems over a model of both duration parsers (Rust state machine, Python regex groups + per-group code) on token lists of arbitrary digit strings: exact value rounded to the nearest microsecond, backends agree on every well-formed string, order/fraction/size rejections, interval assembly over abstract add/sub; correspondence on ~10^5 strings x 2 backends; oracle = fractions.Fraction",
+         "Lean 4 proof over parser models + differential correspondence run")
 NA = {}
 def main():
     props = [json.loads(l) for l in open(os.path.join(ROOT, "properties.jsonl"))]
